@@ -510,7 +510,9 @@ static int check_pivot_policy(const ldc A[NMAX][NMAX], int n, const int_t *perm_
                 if (ao > tol && ao >= thresh + tol && (tol > 0 || ao >= thresh)) {       /* old pivot clearly admissible: must be reused */
                     if (p != old) { snprintf(msg, ml, "step %d: caller's pivot row %d is admissible (|v|=%.3Lg >= u*max=%.3Lg) but row %d was used", j, old, ao, thresh, p); return 1; }
                     judged = 1;
-                } else if (!(ao < thresh - tol || ao == 0)) { judged = 1; if (p != old) usepr_alive = 0; } /* inside the tie band: either */
+                } else if (!(ao < thresh - tol || (ao == 0 && !touched[old][j]))) { judged = 1; if (p != old) usepr_alive = 0; } /* inside the tie band: either.
+                     An exact zero of the reference is exact for the library only when the entry never received an update: a fill entry that cancels exactly in
+                     long double is a tiny nonzero in working precision and then admissible at threshold 0 (false alarm of the first thorough run, single precision) */
                 else usepr_alive = 0;                        /* clearly fails: library falls back for the rest */
             } else usepr_alive = 0;
         }
